@@ -424,6 +424,25 @@ impl<'a> G<'a> {
         }
         self.line(&s);
     }
+
+    /// many events in one transaction (event series spanning several fragments)
+    fn burst(&mut self) {
+        if self.points.is_empty() {
+            return;
+        }
+        let n = self.r.range(30, 90);
+        let mut s = String::from("txn");
+        for _ in 0..n {
+            let (is_bin, idx) = *self.r.pick(&self.points.clone());
+            self.next_time += self.r.range(1, 500);
+            if is_bin {
+                s += &format!(" bin:{}:{}:1:{}", idx, self.r.below(2), self.next_time);
+            } else {
+                s += &format!(" an:{}:{}:1:{}", idx, self.r.range(0, 100000) as i64 - 50000, self.next_time);
+            }
+        }
+        self.line(&s);
+    }
 }
 
 pub fn gen_cfg(r: &mut Rng) -> (String, u64, u64, u64, Option<u64>) {
@@ -460,9 +479,16 @@ pub fn gen(thorough: bool, seed: u64, w: &mut dyn Write, gc: GenCfg) {
     for case in 0..n {
         let mut r = root.fork();
         writeln!(w, "# case {case} kind=session").unwrap();
-        let (cfg, ct, st, rd, ka) = gen_cfg(&mut r);
-        writeln!(w, "{cfg}").unwrap();
+        let (mut cfg, ct, st, rd, ka) = gen_cfg(&mut r);
         let with_db = gc.with_db;
+        // profile "many events": event buffers large enough for event series of several fragments
+        let many_events = with_db && r.chance(1, 6);
+        if many_events {
+            let at = cfg.rfind("evmax=").unwrap();
+            cfg.truncate(at);
+            cfg += &format!("evmax={}", *r.pick(&[100u16, 250]));
+        }
+        writeln!(w, "{cfg}").unwrap();
         let mut g = G {
             r, w, seq: 0, last: None, last_note: None, last_select: None, cfg_ctimeout: ct, cfg_stimeout: st, cfg_rdelay: rd,
             cfg_keepalive: ka, gc: GenCfg { with_db }, next_time: 1000, points: Vec::new(),
@@ -478,6 +504,15 @@ pub fn gen(thorough: bool, seed: u64, w: &mut dyn Write, gc: GenCfg) {
             for i in 0..n.min(12) {
                 g.points.push((is_bin, start + i * (n / 12).max(1)));
             }
+        }
+        if many_events {
+            let is_bin = g.r.chance(1, 2);
+            let class = g.r.range(1, 3);
+            g.line(&format!("addmany {} 0 20 {}", if is_bin { "bin" } else { "an" }, class));
+            for i in 0..20 {
+                g.points.push((is_bin, i));
+            }
+            g.burst();
         }
         if g.gc.with_db {
             let np = g.r.range(0, 6);
@@ -517,7 +552,7 @@ pub fn gen(thorough: bool, seed: u64, w: &mut dyn Write, gc: GenCfg) {
                 50..=67 => g.confirm(),
                 68..=84 => g.tick(),
                 85..=94 => {
-                    if g.gc.with_db { g.txn() } else { g.request() }
+                    if many_events && g.r.chance(1, 3) { g.burst() } else if g.gc.with_db { g.txn() } else { g.request() }
                 }
                 95..=96 => g.line("cut"),
                 97 => {
